@@ -230,9 +230,17 @@ def oracle(case, r):
     elif summary:
         bad.append({'summary_without_summarize': len(summary)})
     # per function: rows
+    used = set()
     for b in blocks:
         if b['missing']:
-            key = next(k for k in stats if k[0] == b['file'].rsplit('/', 1)[-1])
+            # a block without its source names only the file: among the functions of that file not matched yet, the one whose recorded
+            # lines are the numbered rows of the block (ties: the closest total time)
+            cands = [k for k in stats if k[0] == b['file'].rsplit('/', 1)[-1] and k not in used and not (o['stripzeros'] and hits_of(stats[k]) == 0)]
+            if not cands:
+                continue
+            numbered = {row['lineno'] for row in b['rows'] if row['hits']}
+            key = min(cands, key=lambda k: (0 if {e[0] for e in stats[k]} == numbered else 1, abs(time_of(stats[k]) * unit - b['total'])))
+            used.add(key)
         else:
             key = (b['file'].rsplit('/', 1)[-1], b['start'], b['func'])
         entries = stats.get(key)
